@@ -65,10 +65,29 @@ Proof.
   intros [Hb [[E _]|(u' & E & R)]] Hm; rewrite Hm in E; [discriminate E|]. inversion E; subst u'. split; assumption.
 Qed.
 
+(* ================= class "no scheme, no base": failure on both sides ================= *)
+Definition in_class_noscheme_nobase (input : list N) : bool :=
+  match spec_scheme (spec_clean input) with None => true | Some _ => false end.
+
+Theorem class_noscheme_nobase dbg hp hpo hd ovr shp input : in_class_noscheme_nobase input = true ->
+  (exists u, spec_basic_url_parse shp input None = BFailure u)
+  /\ parse_url dbg hp hpo hd ovr None input = PErr RelativeUrlWithoutBase.
+Proof.
+  intros Hc. unfold in_class_noscheme_nobase in Hc.
+  assert (spec_scheme (spec_clean input) = None) as Hs by (destruct (spec_scheme (spec_clean input)); [discriminate | reflexivity]).
+  split.
+  - eexists. apply spec_parse_of_runs. apply runs_no_scheme; [exact Hs|]. apply R_fail.
+    rewrite (step_unfold shp (spec_clean input) None _ [] (spec_clean input)) by reflexivity. reflexivity.
+  - rewrite spec_clean_is_ntnl_trim in Hs. unfold parse_url.
+    pose proof (scheme_state_eq (input_new_trim_c0 input)) as K. rewrite Hs in K.
+    destruct (parse_scheme CUrlParser (input_new_trim_c0 input)) as [[s r]|]; [contradiction | reflexivity].
+Qed.
+
 (* ================= the classes ================= *)
 Definition in_proved_class3 (sbase : option spec_url) (input : list N) : bool :=
   match sbase with
   | None => in_class_opaque input || in_class_pathonly input || in_class_authority input || in_class_special input
+            || in_class_noscheme_nobase input
   | Some sb => in_class_fragment_only input || in_class_query_only sb input || in_class_opaque_base_fail sb input
                || in_class_empty_ref sb input || in_class_relative sb input
   end.
@@ -77,7 +96,7 @@ Lemma in_proved_class3_of2 sbase input : in_proved_class2 sbase input = true -> 
 Proof.
   unfold in_proved_class2, in_proved_class3, in_proved_class. destruct sbase as [sb|].
   - rewrite orb_false_r. intros ->. reflexivity.
-  - intros H. apply orb_true_iff in H. destruct H as [H|H]; [rewrite H; reflexivity | rewrite H; rewrite orb_true_r; reflexivity].
+  - intros H. apply orb_true_iff in H. destruct H as [H|H]; [rewrite H; reflexivity | rewrite H; rewrite ?orb_true_r; reflexivity].
 Qed.
 
 (* the string a host parser is applied to in the class of the input, with the isOpaque flag the
@@ -274,10 +293,13 @@ Proof.
       * apply agree_good_intro.
         -- exact (class_authority dbg hp hpo hd None shp shs input Hu Ea HH).
         -- intros su HS. exact (authority_result_ok shp input su Ea HS).
-      * cbn [orb] in Hc. rewrite Hc in HH.
-        apply agree_good_intro.
-        -- exact (class_special dbg hp hpo hd shp shs input Hu Hc HH).
-        -- intros su HS. exact (special_result_ok shp input su Hc HS).
+      * cbn [orb] in Hc. destruct (in_class_special input) eqn:Es.
+        -- apply agree_good_intro.
+           ++ exact (class_special dbg hp hpo hd shp shs input Hu Es HH).
+           ++ intros su HS. exact (special_result_ok shp input su Es HS).
+        -- cbn [orb] in Hc.
+           destruct (class_noscheme_nobase dbg hp hpo hd None shp input Hc) as [[uf ->] ->].
+           cbn [agree_good]. eexists. reflexivity.
 Qed.
 
 Theorem partial_equivalence_strict3 input base sbase :
